@@ -151,9 +151,12 @@ def conn (args : List String) : String × String :=
     -- `<hdr>[+b:<cap>:<max>]`: the initial Last-Event-ID header and an optional `Connection.Buffer(make([]byte, 0, cap), max)`
     let hdrParts := hdr.splitOn "+"
     let hdrH := hdrParts.headD "-"
-    let buf0 : Option (Nat × Int) := match (hdrParts.drop 1).headD "" |>.splitOn ":" with
+    let buf0 : Option (Nat × Int) := (hdrParts.drop 1).findSome? fun tok => match tok.splitOn ":" with
       | ["b", c, mx] => some (c.toNat?.getD 0, (parseInt? mx).getD 0)
       | _ => none
+    -- `+w`: an earlier `Connect` call on the same Connection made one attempt, which the validator rejected: this
+    -- call's first attempt is a reconnection (the request is reset, C10), with a back-off series of its own
+    let warm : Bool := (hdrParts.drop 1).contains "w"
     let hdr0 : Option Bytes := if hdrH.startsWith "h:" then some (unhex (hdrH.drop 2).toString) else none
     let ps := ((hist.splitOn ";").filter (· != "-")).map parseAttempt ++ [{ kind := 'T', sub := '1' }]
     let timerWins (i : Nat) : Bool := decide (i < nA) || !retCtx
@@ -173,7 +176,7 @@ def conn (args : List String) : String × String :=
                      cancelDuring := cancelDuringOf p (countEv r.1), cancelAfter := p.bang, draw := i }],
              i + 1, GoSSE.Spec.Client.lastDispatched id r.1)) ([], i0, id0)).1
     let h := mk ps 0 []
-    let c : Conn := { req := { header := hdr0, body := body0, getBody := gb }, buf := buf0 }
+    let c : Conn := { req := { header := hdr0, body := body0, getBody := gb }, buf := buf0, isRetry := warm }
     let m := connect cfg fl c 0 (boolOf done0) h
     -- specification attempts
     let sc := scfgOf b
@@ -192,7 +195,8 @@ def conn (args : List String) : String × String :=
             (l ++ [{ timerWins := timerWins i, out := .stream bytes ek (p.sub == 'C' || p.sub == 'K'),
                      cancelDuring := cancelDuringOf p (countEv r.1), cancelAfter := p.bang, elapsed := 0, wait := w }],
              i + 1, GoSSE.Spec.Client.lastDispatched id r.1)) (([] : List SAttempt), 0, ([] : Bytes))).1
-    let s := specConnect sc body0 gb hdr0 (boolOf done0) smk
+    let s := if warm then specLoop sc body0 gb hdr0 smk 1 [] 0 sc.initialInterval (boolOf done0)
+             else specConnect sc body0 gb hdr0 (boolOf done0) smk
     -- C12, jitter on: every observed wait must lie within ±Jitter of its base (+1 ns)
     let j := ratOf b.jitter
     let bases : List Int := (s.1.foldl (fun (acc : List Int × Nat × Int) it =>
